@@ -35,6 +35,13 @@ def run(model, rep, tier):
     from . import lifetime
     rep.rule('C03.R13', "each run sees only its own inputs (rules/lifetime.py): no function of the package is memoised across runs (functools.lru_cache / cache), module-level containers that functions add to are emptied at the start of a run, no mutable class attribute is shared through instances (mutated in place or handed out without being re-bound per instance), and no option with a mutable argparse default is mutated in place after parsing -- a second run in the same process (other layer objects under the same names, other outcomes, other filters) must not inherit the first run's state")
     lifetime.check(ctx, rep, 'C03.R13')
+    rep.rule('C03.R14', 'the set of tests found is the set the walk was told to visit: walk_with_symlinks '
+             'walks every symlinked sub-directory that is left after the ignore pruning and after the '
+             "caller's in-place pruning of the yielded list (no snapshot taken before the yield, no other "
+             'guard than the islink test on the recursion)')
+    c14.symlinked_directories_followed(ctx, rep, 'C03.R14')
+    from . import robust
+    robust.asserts_have_no_effects(ctx, rep, 'C03.R20', 'C03')
     rep.units['cfg'] = ctx.cfg_stats
 
 
